@@ -10,7 +10,7 @@ sys.path.insert(0, os.path.dirname(os.path.dirname(os.path.abspath(__file__))))
 import core  # noqa: E402
 
 ID = "C17"
-THEOREMS = ["c17_flush_then_kill", "c17_close_then_kill"]
+THEOREMS = ["c17_flush_then_kill", "c17_close_then_kill", "c17_close_then_anything", "c17_flush_idempotent", "c17_never_stale"]
 PROFILE = {"weights": {"create": 10, "mtag": 2, "feature": 2, "append": 6, "set_link": 4, "set_attr": 6, "delete": 2, "remove": 2,
                        "lookup": 1, "reopen": 0.3, "bad": 0.3}}
 
